@@ -876,6 +876,13 @@ class _Unjellier:
         )
 
         clz = self.unjelly(rest[0])
+        # The class may have been named by something other than a "class"
+        # expression (a "function" expression resolves any attribute of an
+        # allowed module), which does not check it against the policy.
+        if type(clz) is not type:
+            raise InsecureJelly(f"Instance found with non-class class: {clz!r}")
+        if not self.taster.isClassAllowed(clz):
+            raise InsecureJelly("class not allowed: %s" % qual(clz))
         return self._genericUnjelly(clz, rest[1])
 
     def _unjelly_unpersistable(self, rest):
